@@ -433,7 +433,7 @@ func nearTable(ops []sop, ncolors int) (map[string][]int, map[string]int) {
 			rgb = lab.XtermRGB(kv[1])
 		}
 		if n > 0 {
-			near[key] = lab.Nearest(rgb, pal, 5e-3)
+			near[key] = lab.Nearest(rgb, pal, 3e-2)
 		} else {
 			// monochrome: 0 = nearer to black, 1 = nearer to white, 2 = tie
 			db, dw := lab.Dist(rgb, 0), lab.Dist(rgb, 0xffffff)
